@@ -351,8 +351,19 @@ struct Run {
         walked = true;
     }
     void op_walks() {
-        int kind = s.pick({5, 2, 2});
+        int kind = s.pick({5, 2, 2, 2});
         bool newmem = s.chance(1, 4);
+        if (kind == 3) {
+            // many walks from a zeroed cursor, each abandoned after j steps (they advance the
+            // epoch once each and leave their stamps behind)
+            long k = s.pick({2, 3}) == 0 ? s.range(2, 30) : s.range(30, 300);
+            long j = s.range(0, 3);
+            if (walk_budget < k * (j + 1)) k = 2;
+            walk_budget -= k * (j + 1);
+            c.op("walk x%ld (each abandoned after %ld step(s)) n=%zu", k, j, m.size());
+            for (long i = 0; i < k; i++) do_walk(j, false, false);
+            return;
+        }
         if (kind == 0) { c.op("walk(full,newmem=%d) n=%zu", (int)newmem, m.size()); do_walk(-1, newmem, true); }
         else if (kind == 1) { long j = s.range(0, (long)m.size()); c.op("walk(abandon after %ld) n=%zu", j, m.size()); do_walk(j, newmem, true); }
         else {
@@ -574,7 +585,10 @@ void run_case(Src &s, Ctx &c) {
     Src a = s;
     uint64_t obsA; int sanA;
     std::string traceA;
-    { int s0 = g_san_reports; Run r(a, c, false, false); r.run(); obsA = r.obs; sanA = g_san_reports - s0; traceA = c.trace; }
+    uint32_t dec0 = c.deciding;
+    c.deciding |= FUNC | ITER | NEAR;      // exact bytes and lengths of returned values are part of C12 itself
+    { int s0 = g_san_reports; Run r(a, c, false, false); try { r.run(); } catch (...) { c.deciding = dec0; throw; } obsA = r.obs; sanA = g_san_reports - s0; traceA = c.trace; }
+    c.deciding = dec0;
     c.trace.clear(); c.opno = 0; c.nontrivial = false;
     vf_ledger_reset();
     int s0 = g_san_reports;
